@@ -150,13 +150,16 @@ def _fill_counts(r):
 
 
 def _parse_coverage(out):
-    """Parse `-coverage` action lines:  <Name line .. of module M>: distinct:generated.
+    """Parse the last `-coverage` block: <Name line .. of module M>: distinct:generated.
     Parameterised disjuncts of Next are reported as <Next ... (l1 c1 l2 c2)>; they are
     renamed after the first operator applied inside that span."""
     cov = {}
+    k = out.rfind("The coverage statistics at")
+    if k >= 0:
+        out = out[k:]
     for m in re.finditer(r"^<(\w+) line \d+, col \d+ to line \d+, col \d+ of module (\w+)(?: \((\d+) (\d+) (\d+) (\d+)\))?>: (\d+):(\d+)", out, re.M):
         name, mod, gen = m.group(1), m.group(2), int(m.group(8))
-        if m.group(3):
+        if m.group(3) and name.endswith("Next"):
             try:
                 with open(os.path.join(SPECS, mod + ".tla")) as f:
                     lines = f.read().split("\n")
